@@ -373,7 +373,7 @@ def i_taproot_sig_rule(sig):
     """BIP341 'signature validation rules', written from the BIP text (model side: Spec/SigHashType.v)."""
     if len(sig) == 64:
         return [[sig, 0]]
-    if len(sig) == 65 and sig[64] != 0:
+    if len(sig) == 65 and sig[64] in (0x01, 0x02, 0x03, 0x81, 0x82, 0x83):     # non-zero AND SigMsg defined
         return [[sig[:64], sig[64]]]
     return []
 
@@ -1246,7 +1246,7 @@ TSR_VARIANTS = ["explicit-default-65-bytes", "two-trailing-bytes", "ten-trailing
 
 
 def p_taproot_sig_rule(variant, salt):
-    """(known finding) BIP341 signature validation: a signature is 64 bytes (SIGHASH_DEFAULT) or 65 bytes with a
+    """(fixed by 746b81a) BIP341 signature validation: a signature is 64 bytes (SIGHASH_DEFAULT) or 65 bytes with a
     DEFINED, non-zero hash type; anything else fails.  A key-path spend whose only defect is the form of the
     signature must be rejected by Tx.verify_input (a well-formed one is accepted)."""
     c = _site_spend(VD_KINDS.index("p2tr-key"), 1 + salt % 2, 1, 0, 7000 + salt)
@@ -1282,7 +1282,7 @@ def p_taproot_sig_rule(variant, salt):
 
 
 def p_hash_type_mask(tx, spent, idx, ht):
-    """(known finding) ECDSA hash types outside the standard set: consensus selects NONE / SINGLE with `& 0x1f`."""
+    """(fixed by 9c0cf6b) ECDSA hash types outside the standard set: consensus selects NONE / SINGLE with `& 0x1f`."""
     return p_digest_eq_reference(tx, spent, idx, ht)
 
 
@@ -1306,10 +1306,6 @@ PROPS = {
 def classify(v):
     if v.get("kind") == "prop" and v.get("name") == "script_code_raw":
         return "C05-script-code-reserialized"
-    if v.get("kind") == "prop" and v.get("name") == "taproot_sig_rule":
-        return "C05-taproot-signature-form"
-    if v.get("kind") == "prop" and v.get("name") == "hash_type_mask":
-        return "C05-nonstandard-hash-type-mask"
     return None
 
 
@@ -1888,14 +1884,14 @@ def sig_sites(ctx):
             bad[0][1] = S([0x51])
             yield ("corr", "sign_many", [tx, bad, steps])
 
-    # ---- known findings at the point of use: the form of taproot signatures, the hash type mask
+    # ---- the form of taproot signatures, the hash type mask (both fixed in /repo: regression cases)
     for variant in range(len(TSR_VARIANTS)):
-        ctx.label("sites/known/taproot-signature-form/" + TSR_VARIANTS[variant])
+        ctx.label("sites/taproot-signature-form/" + TSR_VARIANTS[variant])
         yield ("prop", "taproot_sig_rule", [variant, variant + ctx.n(0, 3)])
     tx, spent = make_tx(ctx, 2, 2, ["p2pkh", "p2wpkh"])
     for idx in (0, 1):
         for ht in (6, 7, 0x86):
-            ctx.label("sites/known/hash-type-mask")
+            ctx.label("sites/hash-type-mask-0x1f")
             yield ("prop", "hash_type_mask", [tx, spent, idx, ht])
         for ht in (4, 5, 0x20, 0x21, 0x22, 0x41, 0xc1):        # bytes on which `& 3` and `& 0x1f` agree
             yield ("prop", "digest_eq_reference", [tx, spent, idx, ht])
